@@ -280,6 +280,9 @@ func (s *Sim) checkBuffers(ctx *StepCtx) {
 		if p.state == "nopdr" {
 			continue // handed up for a PDR id the session did not have: outside the quantifier
 		}
+		if p.sess != nil && p.sess.BufTaint {
+			continue // several FAR switches in one message happened in this session: not tracked
+		}
 		rel := relByPDR[p.pdr]
 		if rel == nil || rel.x != p.sess || (p.state != "queued" && !(p.state == "pdr-removed" && rel.optional)) {
 			s.violate("C13", "buf.scope", "buf:emitted-out-of-scope:"+p.state,
